@@ -719,6 +719,12 @@ class WrapperAnalysis:
                         if whole and how in ('operator=', '=') and (ev.value is not None):
                             v = ev.value[0] if ev.kind == 'mutate' and ev.value else ev.value
                             src[(X, M)] = self.describe(v)
+                            pend_ = src.get(('pending', X))
+                            if pend_ is not None and all(src.get((X, M_)) == ('copyof', ('field', pend_[0], M_)) for M_, k_, i_ in owners):
+                                del src[('pending', X)]      # view and owner members now both come from the same object
+                                st[X] = 'S'
+                                dirty_by[X] = ev
+                                continue
                             v_ = unver(v)
                             if isinstance(v_, tuple) and v_ and v_[0] == 'construct':
                                 self.check_deleter(r, M, v_[2:], ev.node, findings)
@@ -740,6 +746,8 @@ class WrapperAnalysis:
                             unknown_mut[X] = ev     # handed by non-const reference to a function whose effect on the buffer is not known
                     dirty_by[X] = ev
                     continue
+            for k_ in [k_ for k_ in src if k_[0] == 'pending']:
+                findings.append(src.pop(k_)[1])
             if path.term[0] == 'throw':
                 continue
             outcomes.append(dict(states=dict(st), src=dict(src), did_setptr=dict(did_setptr), mutated=mutated,
@@ -911,6 +919,14 @@ class WrapperAnalysis:
                 else:
                     findings.append(Finding('R-C11-6', 'view-size', 'the copy takes the pointer of `%s` but the size `%s`' % (show(O_), show(nu)), ev.node,
                                             not (nu[0] == 'const' or contains(nu, self.se._subst(N, {('this',): O_})))))
+                return
+            if owners and O_ in tracked and not c.get('offset') and self.m.shares_storage(r) and nu == self.se._subst(N, {('this',): O_}) \
+                    and all(k_ in ('sp_alloc', 'sp_wrapper', 'wrapper') for M_, k_, i_ in owners):
+                # the other order of the same copy: the view is taken from `other` first and the (non-throwing) share of its owner
+                # members follows; judged when the owners are assigned - or at the end of the path if they never are
+                src[('pending', X)] = (O_, Finding('R-C11-1', 'aliases-other-object', '%s owns its storage but setPtr(%s, ...) takes the view of another '
+                                                   'array and the owner member(s) are not taken from it afterwards' % (cname, show(pu)), ev.node))
+                st[X] = 'S'
                 return
             if owners:
                 findings.append(Finding('R-C11-1', 'aliases-other-object', '%s owns its storage but setPtr(%s, ...) takes the view of another array' % (cname, show(pu)), ev.node))
